@@ -2,6 +2,7 @@
 import sys
 
 from sa import report, rules_reader as RR, rules_read as RD, rules_order as RO
+from sa import rules_extra as RX
 
 
 def run(ctx, repo):
@@ -22,7 +23,7 @@ def run(ctx, repo):
     RD.r_sentinel_appended(ctx, repo)
     RO.r_bounded_read(ctx, repo)
     RR.r_pyx_input_cache(ctx, repo)
-
+    RX.r_decoded_unmodified(ctx, repo)
 
 if __name__ == '__main__':
     sys.exit(report.main('C07', 'other', run))
